@@ -26,6 +26,8 @@ BAD = st.one_of(
     st.fixed_dictionaries({"v": st.just("bytes"), "hex": st.binary(min_size=0, max_size=12).map(bytes.hex)}),
     # short payloads a broker may legitimately deliver: empty, "-1", "0", "null", "{}", "[]"
     st.fixed_dictionaries({"v": st.just("bytes"), "hex": st.sampled_from([b"", b"-1", b"0", b"null", b"{}", b"[]", b"-1\n"]).map(bytes.hex)}),
+    # the two shortest ones again, on their own: payloads that look like values the worker uses internally (its end-of-queue mark is b"-1")
+    st.fixed_dictionaries({"v": st.just("bytes"), "hex": st.sampled_from([b"-1", b"-1", b""]).map(bytes.hex)}),
     st.fixed_dictionaries({"v": st.just("truncate"), "keep": st.integers(0, 60)}),
     st.fixed_dictionaries({"v": st.sampled_from(["labels_list", "no_task_name", "args_not_list", "bad_label_type",
                                                  "unparsable_label", "not_object", "null"])}),
@@ -38,6 +40,9 @@ def message(kinds=("async", "async", "async", "sync", "bad", "unknown"),
     def build(d: Dict[str, Any]) -> Dict[str, Any]:
         if d["kind"] != "bad":
             d.pop("bad")
+        elif d.pop("raw"):
+            d["ack"] = None        # delivered as plain bytes, not wrapped in an ackable message
+        d.pop("raw", None)
         if d["kind"] != "unknown":
             d.pop("uname")
         if not d["cleanup"] or d["kind"] not in ("async", "shared", "late", "dyn", "plaincls"):
@@ -53,6 +58,7 @@ def message(kinds=("async", "async", "async", "sync", "bad", "unknown"),
         "timeout": st.sampled_from(list(timeouts)),
         "cleanup": st.sampled_from(list(cleanups)),
         "bad": BAD,
+        "raw": st.booleans(),
         # names no task is registered under - some of them look like a registered one (other module part, other case, stray separators)
         "uname": st.sampled_from(["no.such.task", "no.such.task", "other.module:atask", "elsewhere:stask", "Atask", "atask.", "atask:", ":atask", "pkg.mod:atask:", "atask "]),
     }).map(build)
